@@ -226,7 +226,7 @@ def run(prop, tier):
         v.bounded.append(RS.summarize(res, "hist", f"one CoreRuntime::step on the compiled crate for every opcode byte x {vec['hist']['patterns']} operand patterns (3 fixed, the rest seeded random), "
                                                    "fresh runtime vs. runtime that executed a history program (CALL/RET, MVL, open CALLF) and carries junk in TEMP0-13, call depth/sub level, call stack and call-page stack; "
                                                    "same registers/flags/memory in => same eight registers, power state, step result and written bytes out"))
-        v.bounded.append(RS.summarize(res, "split", f"four programs (plain code, a program raising a status bit itself, two pending sources, timers with a handler) run for {vec['split']['totals']} instructions "
+        v.bounded.append(RS.summarize(res, "split", f"six programs (plain code, a program raising a status bit itself, two pending sources, timers with a handler, HALT and OFF executed in the middle of a batch with timers running) run for {vec['split']['totals']} instructions "
                                                     "on the compiled crate under five splits of the step() calls vs. one instruction per call: same registers, cycle count and written bytes"))
         v.assumptions.append("Rust half of C07 (LlamaState call bookkeeping, scratch registers, history) NOT proved: bounded stand-in on the compiled crate only; PERF statics / thread-locals not decided")
         v.samples.append(dict(unit=units[0], obligations=["same-outcome", "hist:reg:*", "hist:mem", "hist:halted", "module-state-unchanged"]))
